@@ -397,7 +397,9 @@ func c17summary(w *World, r *Report) {
 			r.Unk("C17.summary", "loop over the recorded accounts", pos, "loop not found")
 		} else {
 			must := func(b *ssa.BasicBlock) bool {
-				return blockHasCall(b, func(c *ssa.Call) bool { return strings.HasSuffix(callName(c.Common()), "ContinuousVestingAccount.GetVestingCoins") })
+				return blockHasCall(b, func(c *ssa.Call) bool {
+					return strings.HasSuffix(callName(c.Common()), "ContinuousVestingAccount.GetVestingCoins")
+				})
 			}
 			nskip := 0
 			for _, sc := range loopSkipConds(*tl, must) {
@@ -512,4 +514,3 @@ func isTypeAssertOK(v ssa.Value, suffix string) bool {
 	ta, ok := ex.Tuple.(*ssa.TypeAssert)
 	return ok && ta.CommaOk && strings.HasSuffix(typeString(ta.AssertedType), suffix)
 }
-
